@@ -999,9 +999,13 @@ def _callers_pass_children(idx, f, param_pos, depth=0):
             if isinstance(n, ast.Call) and (isinstance(n.func, ast.Name) and n.func.id == name or
                                             isinstance(n.func, ast.Attribute) and n.func.attr == name):
                 sites += 1
-                if len(n.args) <= param_pos:
+                # a bound call (obj.helper(x)) does not pass the helper's own first parameter (self / cls)
+                fa = f.node.args.args
+                pos = param_pos - 1 if isinstance(n.func, ast.Attribute) and fa and fa[0].arg in ("self", "cls") and \
+                    not any(isinstance(d_, ast.Name) and d_.id == "staticmethod" for d_ in f.node.decorator_list) else param_pos
+                if pos < 0 or len(n.args) <= pos:
                     return False
-                a = n.args[param_pos]
+                a = n.args[pos]
                 if not (isinstance(a, ast.Name) and a.id in gb):
                     return False
     return sites > 0
